@@ -77,7 +77,13 @@ import HexVerif.X.Sem
     "the callee leaves the caller's memory alone" clause.  xcmp emits no bounds checks: the
     theorem speaks of defined runs only, and X leaves out-of-range subscripts undefined.
     ARRAY FORMALS are included: an actual is the name of a global array or of an array formal; the
-    word passed is the array's address (`wordOf`), `CallSpec` speaks of values.
+    word passed is the array's address (`VRepOf`), `CallSpec` speaks of values.
+    STRING LITERALS are included as actuals of array formals: the word passed is the word address of
+    the literal's label in the string pool (`LDAC _stringN`; each occurrence has its own label, so
+    the triples of actuals are stated with a predicate on the word, `ExecP`); `Rep.strs` relates the
+    pool to `X.packString` (checked on the image by `strCheck`), a subscript of a formal bound to a
+    literal reads the pool, an assignment to one is an error of X.  Literals as operands are in the
+    fragment too, vacuously (X gives no integer for them).
     GLOBAL CONSTANTS (`val n = e`) are included: `ConstProp`'s table is `G.rho` (= what `X.bindGlobals`
     computes), array lengths may be constants, and a call through a constant `< 3` is the system call
     with that number (`execS_valcall`).
@@ -85,8 +91,27 @@ import HexVerif.X.Sem
     of a call that is a whole right-hand side (`exec_usercallP`: the actuals with calls are evaluated
     first and parked in temporaries, as `genCallActuals` does); (V2 and V3) one call - ANY callee - as
     the first actual next to constants (`putval(rem(w, 256))`, `argsOK_first`).
-  Open: string literals, local `val`s, calls of impure procedures in operands (X leaves the order open only if the other operand
-  is constant), calls inside actuals, `val`/array declarations and formals, subscripts and strings;
+    A CALL OF ANY FUNCTION IN AN OPERAND (V2 and V3, `Lemmas/XcmpIExpr.lean`): one call - the callee may
+    change globals, do I/O, terminate the program - under monadic `-`, `~` and under `+ - = ~= < <= > >=`
+    whose other operand is a constant (literal or name of a constant), nested to any depth; these are
+    the only operator expressions over an impure call whose value X defines (`X.orderOk`).  Allowed as
+    right-hand side, `return` value and as the condition of `if` / `while` (`CondOK` now leads from
+    the state before to the state after the condition, or to termination inside it).  The operator
+    shapes are proved once for triples `ExecT` with a state before and a state after.
+    SYSTEM CALL 2 (INPUT) AS AN EXPRESSION: `2(s)` and `get(s)` through a constant, as a right-hand side
+    and as the call of an expression of the class above (`execX_sys`).
+    ONE ACTUAL WITH CALLS NEXT TO CONSTANTS (V2 and V3): in a user call, a system-call statement or a
+    call through a constant, one actual - at any position - may be an expression of the class above
+    (class `ipE5` / `oneImp5`, mutually recursive: `put(get(0), 0)`, `exit(fib(get(0)))`,
+    `p(1, f(g(x)) + 1)`), the others constants; again exactly what `X.orderOk` allows.
+    `ActPhase` (the two passes over the actuals) serves user calls (`argsOK_of_phase`) and system
+    calls (`execS_syscall_phase`, `exec_systail`).
+    Of the repository's tests/x programs, bubblesort, echo_char, exit, fib, hello_prints, hello_putval,
+    printhex and printn are in the class V3 with a passing check; the others are outside because of
+    constructs whose value X leaves undefined (two impure actuals, an impure call next to a variable).
+    CALLS IN `a[i] := e` (`execS_assignSubG`): subscript and value with calls of pure functions (V3);
+    or one of them with calls of any callee and the other a constant (V2 and V3).
+  Open: local `val`s and local arrays, `and` / `or` over an impure call;
   replacing the reflective checks by a proof that they always succeed.
 -/
 namespace Hex.C01
@@ -177,7 +202,7 @@ theorem IAm_refines_Isa (ds : List Asm.Dir) (img : Asm.Image) (g : IAm.Good ds i
 /-! ### Stage (2): expressions without calls -/
 
 /-- **`C01_stage2_partial`.**  Restriction: `pureE e` (literals, names, `- ~ + - = ~= < <= > >= and
-    or`; no subscripts, strings, calls).  If the reference semantics evaluates `e` to the integer
+    or`, subscripts with such an index, string literals (which have no integer value); no calls).  If the reference semantics evaluates `e` to the integer
     `v`, the code `ExprCodeGen` emits for `OptimiseExpr (ConstProp e)` satisfies the triple
     `ExecA`: located anywhere in the lowered program, started by `IAm` in any machine state that
     represents the source state (`Rep`; the I/O state is the source state's), with its frame need
@@ -227,7 +252,7 @@ example : ∃ a' b' mem',
     C01s.Rep C01s.Witness.K C01s.Witness.σ' mem' := by
   have h := C01_stage3_partial C01s.Witness.K 4 C01s.Witness.wf 10 C01s.Witness.stmt C01s.Witness.σ C01s.Witness.stmt_ok
     {} C01s.Witness.code {} 0 0 0 C01s.Witness.mem C01s.Witness.gen_ok C01s.Witness.code_at C01s.Witness.rep
-    (Nat.zero_le _) (Nat.le_refl _) (fun e he => by simp at he)
+    (Nat.zero_le _) (Nat.le_refl _) (fun e he => by simp [Xcmp.GS.items] at he)
   rw [C01s.Witness.exec_ok] at h
   exact h
 
@@ -433,6 +458,191 @@ example : ∃ img, Xcmp.compile demoArr = .ok img := by
   | ok img => exact ⟨img, rfl⟩
   | error e =>
     have : (match Xcmp.compile demoArr with | .ok _ => true | .error _ => false) = true := by decide +kernel
+    rw [h] at this
+    simp at this
+
+/-- `val put = 1; var g;
+     func at(array s, val i) is return s[i]
+     proc show(array s) is var k; { k := at(s, 0); put(k, 0); put(s[1], 0) }
+     proc relay(array s) is show(s)
+     proc main() is { show("ABCD"); relay("ABCD"); g := at("hello", 1); 0(g) }` -/
+def demoStr : X.Program :=
+  { globals := [.val "put" (.num 1), .var "g"],
+    procs := [
+      { isFunc := true, name := "at", formals := [.array "s", .val "i"], locals := [],
+        body := .ret (.sub "s" (.name "i")) },
+      { isFunc := false, name := "show", formals := [.array "s"], locals := [.var "k"],
+        body := .seq [.assign "k" (.call "at" [.name "s", .num 0]), .call "put" [.name "k", .num 0],
+                      .call "put" [.sub "s" (.num 1), .num 0]] },
+      { isFunc := false, name := "relay", formals := [.array "s"], locals := [],
+        body := .call "show" [.name "s"] },
+      { isFunc := false, name := "main", formals := [], locals := [],
+        body := .seq [.call "show" [.str [65, 66, 67, 68]], .call "relay" [.str [65, 66, 67, 68]],
+                      .assign "g" (.call "at" [.str [104, 101, 108, 108, 111], .num 1]),
+                      .syscall 0 [.name "g"]] }] }
+
+/-! Non-vacuity for string literals: `demoStr` (string literals as actuals - the same text twice, so
+    two entries of the string pool -, an array formal bound to a literal and passed on, constant and
+    computed subscripts of it, a function called with a literal) is in the classes V2 and V3, has a
+    defined behaviour (four characters written, exit value 28524 = the second packed word of
+    "hello") and compiles. -/
+example : C01s.v2Ok demoStr = true := by decide +kernel
+example : C01s.v3Ok demoStr = true := by decide +kernel
+example : behaviourIs (X.run demoStr ⟨[], fun _ => []⟩ 5000) 28524 4 = true := by decide +kernel
+example : ∃ img, Xcmp.compile demoStr = .ok img := by
+  cases h : Xcmp.compile demoStr with
+  | ok img => exact ⟨img, rfl⟩
+  | error e =>
+    have : (match Xcmp.compile demoStr with | .ok _ => true | .error _ => false) = true := by decide +kernel
+    rw [h] at this
+    simp at this
+
+/-- `val put = 1; val k = 5; var g; var n;
+     func next(val d) is { n := n + d; if n > 20 then 0(n) else skip; put(n + 48, 0); return n }
+     proc main() is var x;
+     { n := 0; x := next(2) + 1; g := k - (-next(x));
+       if 10 <= next(1) + k then x := 100 else skip;
+       while next(3) < 1000 do g := g + 1;
+       0(g + x) }` -/
+def demoIp : X.Program :=
+  { globals := [.val "put" (.num 1), .val "k" (.num 5), .var "g", .var "n"],
+    procs := [
+      { isFunc := true, name := "next", formals := [.val "d"], locals := [],
+        body := .seq [.assign "n" (.bin .plus (.name "n") (.name "d")),
+                      .ite (.bin .gr (.name "n") (.num 20)) (.syscall 0 [.name "n"]) .skip,
+                      .call "put" [.bin .plus (.name "n") (.num 48), .num 0],
+                      .ret (.name "n")] },
+      { isFunc := false, name := "main", formals := [], locals := [.var "x"],
+        body := .seq [.assign "n" (.num 0),
+                      .assign "x" (.bin .plus (.call "next" [.num 2]) (.num 1)),
+                      .assign "g" (.bin .minus (.name "k") (.un .neg (.call "next" [.name "x"]))),
+                      .ite (.bin .le (.num 10) (.bin .plus (.call "next" [.num 1]) (.name "k"))) (.assign "x" (.num 100)) .skip,
+                      .while (.bin .ls (.call "next" [.num 3]) (.num 1000)) (.assign "g" (.bin .plus (.name "g") (.num 1))),
+                      .syscall 0 [.bin .plus (.name "g") (.name "x")]] }] }
+
+/-! Non-vacuity for a call of an IMPURE function in an operand: `demoIp` (`next` changes a global,
+    writes a character and may terminate the program; it is called under `+ - <= <` and monadic `-`
+    next to constants, in right-hand sides, in the condition of an `if` and in the condition of a
+    `while`, where the program finally terminates INSIDE the call) is in the classes V2 and V3, has
+    a defined behaviour (seven characters written, exit value 21) and compiles. -/
+example : C01s.v2Ok demoIp = true := by decide +kernel
+example : behaviourIs (X.run demoIp ⟨[], fun _ => []⟩ 5000) 21 7 = true := by decide +kernel
+example : ∃ img, Xcmp.compile demoIp = .ok img := by
+  cases h : Xcmp.compile demoIp with
+  | ok img => exact ⟨img, rfl⟩
+  | error e =>
+    have : (match Xcmp.compile demoIp with | .ok _ => true | .error _ => false) = true := by decide +kernel
+    rw [h] at this
+    simp at this
+
+/-- `val put = 1; val get = 2; var c; var n;
+     proc main() is
+     { n := 0; c := get(0);
+       while c ~= 10 do { put(c, 0); n := n + 1; c := get(0) };
+       if 2(0) = 67 - 1 then n := n + 100 else skip;
+       while 255 ~= get(0) do n := n + 1000;
+       0(n) }` -/
+def demoIn : X.Program :=
+  { globals := [.val "put" (.num 1), .val "get" (.num 2), .var "c", .var "n"],
+    procs := [
+      { isFunc := false, name := "main", formals := [], locals := [],
+        body := .seq [.assign "n" (.num 0), .assign "c" (.call "get" [.num 0]),
+                      .while (.bin .ne (.name "c") (.num 10))
+                        (.seq [.call "put" [.name "c", .num 0], .assign "n" (.bin .plus (.name "n") (.num 1)),
+                               .assign "c" (.call "get" [.num 0])]),
+                      .ite (.bin .eq (.syscall 2 [.num 0]) (.bin .minus (.num 67) (.num 1)))
+                        (.assign "n" (.bin .plus (.name "n") (.num 100))) .skip,
+                      .while (.bin .ne (.num 255) (.call "get" [.num 0])) (.assign "n" (.bin .plus (.name "n") (.num 1000))),
+                      .syscall 0 [.name "n"]] }] }
+
+/-! Non-vacuity for INPUT: `demoIn` (system call 2 through the constant `get` and as `2(0)`, as a
+    whole right-hand side and under `=` / `~=` next to a constant in the conditions of `if` and
+    `while`) is in the class V2; on the input "hi\nB" followed by two more bytes it echoes the
+    first line, reads to the end of the input (six bytes consumed, then the end-of-input value)
+    and exits with 2102. -/
+example : C01s.v2Ok demoIn = true := by decide +kernel
+example : (match X.run demoIn ⟨[104, 105, 10, 66, 1, 2], fun _ => []⟩ 5000 with
+    | .defined β => β.exit == 2102 && β.events.length == 9 && β.stdinConsumed == 6
+    | _ => false) = true := by decide +kernel
+example : ∃ img, Xcmp.compile demoIn = .ok img := by
+  cases h : Xcmp.compile demoIn with
+  | ok img => exact ⟨img, rfl⟩
+  | error e =>
+    have : (match Xcmp.compile demoIn with | .ok _ => true | .error _ => false) = true := by decide +kernel
+    rw [h] at this
+    simp at this
+
+/-- `val put = 1; val get = 2; var n;
+     func inc(val d) is { n := n + d; return n }
+     proc show(val a, val c) is put(c, a)
+     proc main() is
+     { n := 0; put(get(0), 0); show(0, inc(inc(3) + 1) - 2); put(65 + inc(get(0)), 0); 0(inc(inc(inc(1)))) }` -/
+def demoNest : X.Program :=
+  { globals := [.val "put" (.num 1), .val "get" (.num 2), .var "n"],
+    procs := [
+      { isFunc := true, name := "inc", formals := [.val "d"], locals := [],
+        body := .seq [.assign "n" (.bin .plus (.name "n") (.name "d")), .ret (.name "n")] },
+      { isFunc := false, name := "show", formals := [.val "a", .val "c"], locals := [],
+        body := .call "put" [.name "c", .name "a"] },
+      { isFunc := false, name := "main", formals := [], locals := [],
+        body := .seq [.assign "n" (.num 0),
+                      .call "put" [.call "get" [.num 0], .num 0],
+                      .call "show" [.num 0, .bin .minus (.call "inc" [.bin .plus (.call "inc" [.num 3]) (.num 1)]) (.num 2)],
+                      .call "put" [.bin .plus (.num 65) (.call "inc" [.call "get" [.num 0]]), .num 0],
+                      .syscall 0 [.call "inc" [.call "inc" [.call "inc" [.num 1]]]]] }] }
+
+/-! Non-vacuity for calls inside actuals, of any callee and nested: `demoNest` (a system call as the
+    actual of a system call; a call with effects - nested, under operators - as the SECOND actual
+    of a procedure next to a constant; calls nested three deep as the actual of `exit`) is in the
+    class V2; on the input "A7" it echoes `A`, writes two more bytes and exits with 252. -/
+example : C01s.v2Ok demoNest = true := by decide +kernel
+example : (match X.run demoNest ⟨[65, 55], fun _ => []⟩ 5000 with
+    | .defined β => β.exit == 252 && β.events.length == 5 && β.stdinConsumed == 2
+    | _ => false) = true := by decide +kernel
+example : ∃ img, Xcmp.compile demoNest = .ok img := by
+  cases h : Xcmp.compile demoNest with
+  | ok img => exact ⟨img, rfl⟩
+  | error e =>
+    have : (match Xcmp.compile demoNest with | .ok _ => true | .error _ => false) = true := by decide +kernel
+    rw [h] at this
+    simp at this
+
+/-- `var n; array a[8];
+     func next(val d) is { n := n + d; return n }
+     func sq(val x) is var r; var k; { r := 0; k := 0; while k < x do { r := r + x; k := k + 1 }; return r }
+     proc main() is var i;
+     { n := 0; i := 3; a[i] := sq(i); a[next(1)] := 5; a[2] := next(3) + 1; a[sq(2)] := a[i] - sq(1);
+       0((a[1] + a[2]) + (a[3] + a[4])) }` -/
+def demoAs : X.Program :=
+  { globals := [.var "n", .array "a" (.num 8)],
+    procs := [
+      { isFunc := true, name := "next", formals := [.val "d"], locals := [],
+        body := .seq [.assign "n" (.bin .plus (.name "n") (.name "d")), .ret (.name "n")] },
+      { isFunc := true, name := "sq", formals := [.val "x"], locals := [.var "r", .var "k"],
+        body := .seq [.assign "r" (.num 0), .assign "k" (.num 0),
+                      .while (.bin .ls (.name "k") (.name "x"))
+                        (.seq [.assign "r" (.bin .plus (.name "r") (.name "x")), .assign "k" (.bin .plus (.name "k") (.num 1))]),
+                      .ret (.name "r")] },
+      { isFunc := false, name := "main", formals := [], locals := [.var "i"],
+        body := .seq [.assign "n" (.num 0), .assign "i" (.num 3),
+                      .assignSub "a" (.name "i") (.call "sq" [.name "i"]),
+                      .assignSub "a" (.call "next" [.num 1]) (.num 5),
+                      .assignSub "a" (.num 2) (.bin .plus (.call "next" [.num 3]) (.num 1)),
+                      .assignSub "a" (.call "sq" [.num 2]) (.bin .minus (.sub "a" (.name "i")) (.call "sq" [.num 1])),
+                      .syscall 0 [.bin .plus (.bin .plus (.sub "a" (.num 1)) (.sub "a" (.num 2)))
+                                             (.bin .plus (.sub "a" (.num 3)) (.sub "a" (.num 4)))]] }] }
+
+/-! Non-vacuity for calls in `a[i] := e`: `demoAs` (a pure call as the value and as the subscript,
+    next to variables; a call with effects as the subscript next to a constant value, and as the
+    value next to a constant subscript) is in the class V3, has a defined behaviour (exit value 27)
+    and compiles. -/
+example : C01s.v3Ok demoAs = true := by decide +kernel
+example : behaviourIs (X.run demoAs ⟨[], fun _ => []⟩ 5000) 27 0 = true := by decide +kernel
+example : ∃ img, Xcmp.compile demoAs = .ok img := by
+  cases h : Xcmp.compile demoAs with
+  | ok img => exact ⟨img, rfl⟩
+  | error e =>
+    have : (match Xcmp.compile demoAs with | .ok _ => true | .error _ => false) = true := by decide +kernel
     rw [h] at this
     simp at this
 
